@@ -4,6 +4,7 @@
 
 import time
 import sys
+import math
 from xml.etree import ElementTree
 import binascii
 import datetime
@@ -220,20 +221,55 @@ class Real(Type):
     def __init__(self, name):
         super(Real, self).__init__(name, 'REAL')
 
+    SPECIAL_VALUES = {
+        'PLUS-INFINITY': float('inf'),
+        'MINUS-INFINITY': float('-inf'),
+        'NOT-A-NUMBER': float('nan')
+    }
+
     def encode(self, data):
         data = float(data)
-        exponent = 0
-
-        while abs(data) >= 10:
-            data /= 10
-            exponent += 1
-
         element = ElementTree.Element(self.name)
-        element.text = '{}E{}'.format(data, exponent)
+
+        if math.isinf(data):
+            ElementTree.SubElement(
+                element,
+                'PLUS-INFINITY' if data > 0 else 'MINUS-INFINITY')
+        elif math.isnan(data):
+            ElementTree.SubElement(element, 'NOT-A-NUMBER')
+        else:
+            element.text = self.encode_number(data)
 
         return element
 
+    def encode_number(self, data):
+        """Format given finite number as mantissa and exponent without
+        loosing precision. The shortest decimal string that converts
+        back to the same float is used (repr), and the decimal point
+        is moved textually.
+
+        """
+
+        mantissa, _, exponent = repr(data).partition('e')
+        exponent = int(exponent) if exponent else 0
+
+        if '.' not in mantissa:
+            mantissa += '.0'
+
+        sign = '-' if mantissa[0] == '-' else ''
+        integer, fraction = mantissa.lstrip('-').split('.')
+
+        if len(integer) > 1:
+            exponent += (len(integer) - 1)
+            fraction = (integer[1:] + fraction).rstrip('0') or '0'
+            integer = integer[0]
+
+        return '{}{}.{}E{}'.format(sign, integer, fraction, exponent)
+
     def decode(self, element):
+        if len(element) == 1 and element[0].tag in self.SPECIAL_VALUES:
+            return self.SPECIAL_VALUES[element[0].tag]
+
         return float(element.text)
 
 
